@@ -83,3 +83,20 @@ Definition showps (ps : list (pstate (list outcome))) : list (Z * list (Z * Z * 
                 | Some (Op _ _) => (2, [])
                 | None => (0, [])
                 end) ps.
+
+(* the operations performed along a schedule, tagged with the participant *)
+Fixpoint gtrace {A} (evs : list event) (c : fs * list (pstate A)) : list (Z * (fsop * res)) :=
+  match evs with
+  | [] => []
+  | e :: tl =>
+      let here := match e with
+                  | Run i => match nth i (snd c) None with
+                             | Some (Op o _) => [(Z.of_nat i, (o, fst (exec o (fst c))))]
+                             | _ => []
+                             end
+                  | _ => []
+                  end in
+      here ++ gtrace tl (gstep e c)
+  end.
+
+Definition showgtrace (l : list (Z * (fsop * res))) := map (fun x => (fst x, showop (snd x))) l.
